@@ -38,6 +38,13 @@ def te_list(rng, n):
 def build(rng, kind, i):
     tag = "k%d" % i
     follower = b"GET /after HTTP/1.1\r\nHost: h\r\n\r\n"
+    if kind == "head-identity":
+        # a HEAD request that forces identity framing, answered with a body of unknown length
+        v10 = rng.chance(1, 2)
+        s = (b"HEAD /h HTTP/1.0\r\nConnection: keep-alive\r\n\r\n" if v10 else b"HEAD /h HTTP/1.1\r\nTE: identity\r\n\r\n") + follower
+        st = rng.choice([200, 204, 304, 404])
+        return cv_line(s, [action_str([], respond_str(st, body_bytes("x", rng.choice([0, 5, 40000])), False))], extra="c14=1"), {"kind": kind}
+    s = b""
     if kind == "huge-cl":
         n = rng.choice(HUGE)
         have = rng.choice([0, 5, 1024, 1025, 3000])
@@ -77,16 +84,27 @@ def build(rng, kind, i):
         base = (b"POST /t HTTP/1.1\r\nHost: h\r\nContent-Length: 10\r\n\r\n0123456789"
                 b"POST /u HTTP/1.1\r\nTransfer-Encoding: chunked\r\n\r\n5;x\r\nhello\r\n0\r\n\r\n")
         s = base[:rng.below(len(base) + 1)]
+    elif kind == "many-505":
+        n = rng.choice([50, 1000])
+        s = (b"GET / HTTP/%s\r\n\r\n" % rng.choice([b"2.0", b"3.0"])) * n + b"GET /after HTTP/1.1\r\nHost: h\r\n\r\n"
+    elif kind == "many-requests":
+        n = rng.choice([200, 1000])
+        s = b"GET /p HTTP/1.1\r\nHost: h\r\n\r\n" * n
     elif kind == "random":
         s = bytes([rng.choice([13, 10, 32, 58, 71, 69, 84, 47, 72, 80, 49, 46, rng.below(256)]) for _ in range(rng.choice([3, 30, 300]))])
     else:
         raise ValueError(kind)
     act, t = handler(rng)
+    if kind in RARE:
+        # small answers: what is measured is what the CLIENT's bytes make the server allocate
+        act, t = action_str([], respond_str(200, b"ok", True)), {"reads": 0, "finish": "R"}
     t["kind"] = kind
     return cv_line(s, [act], extra="c14=1"), t
 
 
-KINDS = ["huge-cl", "huge-cl", "huge-chunk", "many-headers", "long-line", "control", "te-nan", "te-nan", "truncated", "random"]
+KINDS = ["huge-cl", "huge-cl", "huge-chunk", "many-headers", "long-line", "control", "te-nan", "te-nan", "truncated", "random",
+         "head-identity"]
+RARE = ["many-505", "many-requests"]     # long pipelines: a few per run (the model's wire append is quadratic)
 
 
 def gen(tier, rng):
@@ -96,6 +114,8 @@ def gen(tier, rng):
     n = 2000 if tier == "quick" else 40000
     for i in range(n):
         yield build(rng, KINDS[i % len(KINDS)], i)
+    for i in range(8 if tier == "quick" else 80):
+        yield build(rng, RARE[i % 2], n + i)
 
 
 def project(obs):
